@@ -56,7 +56,7 @@ def profile(tier):
     p.p_big_size = 0.03
     if tier == 'thorough':
         p.max_depth = 4
-        p.p_big_size = 0.06
+        p.p_big_size = 0.04
     return p
 
 
@@ -81,7 +81,7 @@ def run_shard(ctx):
         st.inc('modules')
         if not gs.legal:
             continue
-        vg = V.ValueGen(gs.env, gs.rnd, ctx.tier, big_len_p=0.04 if ctx.tier == 'quick' else 0.1,
+        vg = V.ValueGen(gs.env, gs.rnd, ctx.tier, big_len_p=0.04 if ctx.tier == 'quick' else 0.02,
                         max_len=200 if ctx.tier == 'quick' else 70000)
         cases = []
         for mod, name, t in gs.types():
